@@ -107,6 +107,26 @@ theorem resume_none_iff (results : List (Option Chain)) :
   · rename_i hnil; simp [hnil]
   · rename_i hne; simp only [reduceCtorEq, false_iff]; exact fun h => hne h
 
+/-- **unplaced_cell_keeps_position** (repair a7ed065; the finding `table-cell-restarts-after-empty-fragment`
+is filed under C01).  A continued cell of which nothing more fits on a page reports the position it was
+given, so that — by `split_roundtrip` — the next page resumes it exactly there instead of restarting
+it; only a cell that had not started reports `{0: None}`. -/
+theorem unplaced_cell_keeps_position (skip result : Option Chain) (a : Nat) (c : Chain) :
+    cellResume false (some (a :: c)) result = some (a :: c) ∧
+    cellResume false none result = some [0] ∧ cellResume false (some []) result = some [0] ∧
+    cellResume true skip result = result := by
+  refine ⟨rfl, rfl, rfl, rfl⟩
+
+/-- End to end over one empty page: the cell stopped at `a :: c`, places nothing on the next page, and
+is resumed on the page after at `a :: c` again (`i` = its index in the row, `rs` = what the other
+cells report). -/
+theorem empty_page_roundtrip (pre post : List (Option Chain)) (a : Nat) (c : Chain) (result : Option Chain)
+    (n : Nat) (d : RowSkip)
+    (h : rowResume (pre ++ cellResume false (some (a :: c)) result :: post) = some d) :
+    cellSkip (some d) pre.length n = some (a :: c) := by
+  rw [split_roundtrip _ d h pre.length n]
+  simp [cellResume, truthy]
+
 /-- Without a skip stack (first fragment, or any row after the resumed one: `skip_stack = None`), and
 with the empty dict left by an avoided break (`resume_at = {index_row: {}}`), every cell starts at
 its beginning. -/
